@@ -104,6 +104,11 @@ def run(ctx):
                 adt = lib.adts.get(expo[1][1][4:].rsplit('::', 1)[0])
                 if adt and expo[2] in adt[0].get('fields', []) and adt[0]['fields'].index(expo[2]) < len(expo[1][2]):
                     expo = norm(expo[1][2][adt[0]['fields'].index(expo[2])])
+            if expo[0] == 'field' and expo[1][0] == 'var':
+                # ... or in a record that is updated in place (`acc.total += ..`): the field's initial value, if never rewritten
+                v0 = q.record_field_init(c, expo[1][1], expo[2])
+                if v0 is not None:
+                    expo = norm(q.resolve_captures(lib, c, v0))
             expo_ok = expo[0] == 'upvar' or (p_param is not None and expo == p_param)
             ctx.verdict(bool(ab) and is_diff and expo_ok, rule, '%s:%s' % (rule, q.top(c.name)),
                         'each accumulated term is powf(abs(left - right), p): the difference goes through abs before the power', c.where(bi),
